@@ -71,6 +71,12 @@ func (d *uintDecoder) decodeStreamByte(s *Stream) ([]byte, error) {
 			continue
 		case '0':
 			s.cursor++
+			if s.char() == nul {
+				s.read()
+			}
+			if isNumberContinuation(s.char()) {
+				return nil, d.typeError([]byte{'0', s.char()}, s.totalOffset())
+			}
 			return numZeroBuf, nil
 		case '1', '2', '3', '4', '5', '6', '7', '8', '9':
 			start := s.cursor
@@ -87,6 +93,9 @@ func (d *uintDecoder) decodeStreamByte(s *Stream) ([]byte, error) {
 				break
 			}
 			num := s.buf[start:s.cursor]
+			if c := s.char(); c == '.' || c == 'e' || c == 'E' {
+				return nil, d.typeError(append(append([]byte{}, num...), c), s.totalOffset())
+			}
 			return num, nil
 		case 'n':
 			if err := nullBytes(s); err != nil {
@@ -113,6 +122,12 @@ func (d *uintDecoder) decodeByte(buf []byte, cursor int64) ([]byte, int64, error
 			continue
 		case '0':
 			cursor++
+			if c := buf[cursor]; numTable[c] {
+				// leading zero: store nothing, the caller rejects the stray digit.
+				return nil, cursor, nil
+			} else if isNumberContinuation(c) {
+				return nil, 0, d.typeError([]byte{'0', c}, cursor)
+			}
 			return numZeroBuf, cursor, nil
 		case '1', '2', '3', '4', '5', '6', '7', '8', '9':
 			start := cursor
@@ -121,6 +136,9 @@ func (d *uintDecoder) decodeByte(buf []byte, cursor int64) ([]byte, int64, error
 				cursor++
 			}
 			num := buf[start:cursor]
+			if c := buf[cursor]; c == '.' || c == 'e' || c == 'E' {
+				return nil, 0, d.typeError(append(append([]byte{}, num...), c), cursor)
+			}
 			return num, cursor, nil
 		case 'n':
 			if err := validateNull(buf, cursor); err != nil {
